@@ -650,6 +650,12 @@ pub(crate) async fn fashare(
 
     // 3 b) Pi broadcasts decommitment for macs.
     let mut dm_k = broadcast(channel, i, n, "fashare ver", &dmvec).await?;
+    // Each decommitment consists of the bit and one 16 byte MAC per other party.
+    for k in (0..n).filter(|k| *k != i) {
+        if dm_k[k].iter().any(|dm| dm.len() != 1 + (n - 1) * 16) {
+            return Err(Error::InvalidLength);
+        }
+    }
     dm_k[i] = dmvec;
 
     // 3 c) Compute bi to determine di_bi and send to all parties.
